@@ -78,12 +78,12 @@ def execute(run: Run, lab: Lab, histories, corr, tag):
     hs = [lab.with_tables(h) + [final] for h in histories]
     outs = lab.pool.map(hs)
     try:
-        reps = lab.run_model(hs)
+        reps = lab.run_model(hs, outs)
     except (ValueError, KeyError, IndexError) as e:
         run.proof_broken.append("the model generated from the lazy-loading source cannot express the histories "
                                 "(%s: %s); histories are judged by the oracle only" % (type(e).__name__, e))
         lab.degrade("%s: %s" % (type(e).__name__, e))
-        reps = lab.run_model(hs)
+        reps = lab.run_model(hs, outs)
     for h, o, r in zip(hs, outs, reps):
         if isinstance(o, dict):
             raise InfraError("history child crashed: %s" % str(o)[-400:])
@@ -141,7 +141,7 @@ def replay(data) -> int:
                  for e in v["input"]["history"]]
             h = [e if e[0] != "digest" else ("digest", e[1], [tuple(k) for k in e[2]]) for e in h]
             outs = lab.pool.map([h])[0]
-            reps = lab.run_model([h])[0]
+            reps = lab.run_model([h], [outs])[0]
             print("history :", h)
             print("real    :", [o[:2] for o in outs])
             print("model   :", [r[:2] for r in reps])
